@@ -107,7 +107,7 @@ Fixpoint all2 {A B} (f : A -> B -> bool) (l : list A) (m : list B) : bool :=
   | _, _ => false
   end.
 
-Definition rep_ok (steps : list step) (r : option rep) : bool :=
+Definition rep_ok (fx : fixes) (steps : list step) (r : option rep) : bool :=
   match r with
   | None => true
   | Some r =>
@@ -115,18 +115,18 @@ Definition rep_ok (steps : list step) (r : option rep) : bool :=
     | None => false
     | Some s =>
       Nat.eqb (rp_unexplained r) 0 && Nat.leb 1 (rp_distinct r) && Nat.leb (rp_distinct r) (rp_runs r) &&
-      (negb (order_free (st_inst s)) || Nat.eqb (rp_distinct r) 1)
+      (negb (order_free (st_inst s) || fx1 fx) || Nat.eqb (rp_distinct r) 1)
     end
   end.
 
-Definition corr (c : case) : bool :=
+Definition corr (fx : fixes) (c : case) : bool :=
   let steps := map os_step (c_steps c) in
   let obss := map os_obs (c_steps c) in
   let H := H_tab (c_sha c) in
   forallb orders_ok steps && forallb (fun s => wf_instb (st_inst s)) steps &&
-  all2 sres_matches (run_cached H (c_world c) [] steps) obss &&
+  all2 sres_matches (run_cached fx H (c_world c) [] steps) obss &&
   all2 fresh_matches (run_fresh (c_world c) steps) obss &&
-  rep_ok steps (c_rep c).
+  rep_ok fx steps (c_rep c).
 
 (* ------------------------------------------------------------------ the property on the observations *)
 
@@ -154,13 +154,16 @@ Definition prop (c : case) : bool :=
 
 (* ------------------------------------------------------------------ guards *)
 
-Definition check (c : case) : verdict :=
+(** [fx]: which candidate repairs the implementation is expected to contain
+    ([fx_none]: the tree as it is).  A repaired finding has no guard any more. *)
+Definition check (fx : fixes) (c : case) : verdict :=
   let steps := map os_step (c_steps c) in
   let rp := match c_rep c with Some r => Some (rp_step r) | None => None end in
-  {| v_corr := corr c;
+  {| v_corr := corr fx c;
      v_prop := prop c;
-     v_guards := guards [(1%Z, g_F1 steps rp); (2%Z, g_F2 steps); (3%Z, g_F3 steps);
-                         (4%Z, g_F4 (H_tab (c_sha c)) steps); (6%Z, g_F6 steps); (7%Z, g_F7 steps)] |}.
+     v_guards := guards [(1%Z, g_F1 steps rp && negb (fx1 fx)); (2%Z, g_F2 steps && negb (fx2 fx));
+                         (3%Z, g_F3 steps && negb (fx3 fx));
+                         (4%Z, g_F4 fx (H_tab (c_sha c)) steps); (6%Z, g_F6 steps); (7%Z, g_F7 steps)] |}.
 
 (* ------------------------------------------------------------------ short names for generated files *)
 
